@@ -22,9 +22,9 @@ REGION = "us-west-2"
 def universe(big):
     if not big:
         return dict(lens=[0, 1, 15, 16, 17, 1000], parts=["p1", "a_b"], svcs=["svc", "my_svc"], prods=["prod"],
-                    stamps=["86400", "4102444800"])
+                    stamps=["86400", "1534553075", "4102444800"])   # 1534553075: the documentation's own example, not on a minute boundary
     return dict(lens=[0, 1, 15, 16, 17, 31, 32, 33, 1000, 65537], parts=["p1", "a_b", "_x_", "t-1.z<&>"], svcs=["svc", "my_svc"],
-                prods=["prod", "pr_d"], stamps=["86400", "1534553040", "4102444800", "99999999960"])
+                prods=["prod", "pr_d"], stamps=["86400", "1534553040", "1534553075", "4102444800", "99999999960"])
 
 
 def consts_of(u, channels, dirs=("sdk-to-ref", "ref-to-sdk"), regions=("", REGION)):
